@@ -1366,6 +1366,36 @@ def _run_inttypes(case, ck):
                     "(expected %r), largest overlap %r" %
                     (r1, r2, d, dt, got, want, lo))
         acc.append(dt)
+    # radii held in single / half precision: the surface is where the
+    # number the radius stands for puts it (points on both sides of it, in
+    # double precision)
+    for dt, eps in (("float32", 1e-9), ("float32", 1e-8), ("float16", 1e-6)):
+        for rvals in ([0.3], [0.3, 0.5], [5e-3, 0.7]):
+            typed = [np.dtype(dt).type(v) for v in rvals]
+            exact = [float(v) for v in typed]
+            forms = [("scalars", typed if len(typed) > 1 else typed[0]),
+                     ("array", np.array(rvals, dtype=dt))]
+            for fname, rr in forms:
+                n = [1.5, 1.6][:len(exact)] if len(exact) > 1 else 1.5
+                if len(exact) == 1 and fname == "array":
+                    continue
+                s = hs.Sphere(n=n, r=rr, center=(0.0, 0.0, 0.0))
+                for k, re in enumerate(exact):
+                    for side in (-1, 1):
+                        d = re * (1 + side * eps)
+                        for axis in range(3):
+                            p = np.zeros((1, 3))
+                            p[0, axis] = d
+                            got = int(np.asarray(s.in_domain(p)).ravel()[0])
+                            want = (k + 1) if side < 0 else \
+                                (k + 2 if k + 1 < len(exact) else 0)
+                            ck.trans += 1
+                            ck.true("narrow-float-radii", got == want,
+                                    "Sphere with radii %r as %s (%s): a "
+                                    "point at %r x (1 %+g) from the centre "
+                                    "is in domain %d, analytic %d" %
+                                    (rvals, dt, fname, re, side * eps, got,
+                                     want))
     return digest(acc)
 
 
